@@ -140,6 +140,17 @@ def gen_density(tier, rng):
                    ([F(1), None, F(3)], [F(1), F(2)]), ([F(1), F(2)], [None, F(2), F(3)])]:
         cases.append(_dcase(rho, z, F(0), F(-1)))
         cases.append(_dcase(rho, z, None, None))
+    # hairline inversions: the density change passes (or misses) a threshold by 2^-30 / 2^-20
+    for _ in range(60 if tier == "quick" else 400):
+        t = F(rng.choice([0, F(-1, 2), -1, F(-3, 64), 1]))
+        e = F(1, 2 ** rng.choice([30, 30, 20])) * rng.choice([1, -1, -1, 0])
+        up = rng.random() < 0.4
+        z = [F(3), F(2), F(1)] if up else [F(1), F(2), F(3)]
+        d = (t + e) * (-1 if up else 1)
+        b = F(rng.choice([0, 5, 1000]))
+        rho = [b, b + d, b + d]
+        which = rng.choice(["st", "ft", "both"])
+        cases.append(_dcase(rho, z, t if which != "ft" else None, t if which != "st" else None))
     cases += big_shift_copies(cases, "rho", rng, 150 if tier == "quick" else 1500, lambda c: True)
     return cases
 
